@@ -46,8 +46,8 @@ struct Obs {
     errors: Vec<String>,
 }
 
-fn run_one(paths: &[Entry], prefix: &[usize]) -> (Run, Obs) {
-    e2::block_on_fresh(async {
+fn run_one(paths: &[Entry], prefix: &[usize], fine: bool) -> (Run, Obs) {
+    let body = async {
         reset_seams();
         let _wall = Wall::start();
         let node = Node::start(1, "dc", Arc::new(MemStore::default())).await;
@@ -101,7 +101,8 @@ fn run_one(paths: &[Entry], prefix: &[usize]) -> (Run, Obs) {
                 }) as Client)
             })
             .collect();
-        let run = e2::drive(clients, prefix, &DriveCfg::default()).await;
+        let run = e2::drive(clients, prefix, &DriveCfg { interleave_background: fine, ..DriveCfg::default() }).await;
+        e2::settle().await;
         let mut obs = Obs::default();
         obs.acked = acked.borrow().clone();
         obs.acked.sort();
@@ -115,7 +116,12 @@ fn run_one(paths: &[Entry], prefix: &[usize]) -> (Run, Obs) {
             Err(e) => obs.errors.push(e),
         }
         (run, obs)
-    })
+    };
+    if fine {
+        e2::block_on_fresh_fine(body)
+    } else {
+        e2::block_on_fresh(body)
+    }
 }
 
 fn case_json(paths: &[Entry], run: &Run) -> J {
@@ -123,6 +129,14 @@ fn case_json(paths: &[Entry], run: &Run) -> J {
         .set("entry_paths", paths.iter().map(|p| format!("{p:?}")).collect::<Vec<_>>())
         .set("schedule", run.choices.clone())
         .set("ran", run.ran.clone())
+}
+
+fn judge_fine(paths: &[Entry], run: &Run, obs: &Obs, st: &mut Stats) {
+    let before = st.found.len();
+    judge(paths, run, obs, st);
+    for f in st.found.iter_mut().skip(before) {
+        f.replay.put("fine_grained", true);
+    }
 }
 
 fn judge(paths: &[Entry], run: &Run, obs: &Obs, st: &mut Stats) {
@@ -182,11 +196,26 @@ pub fn run(tier: Tier) -> i32 {
     for t in [[Entry::Direct, Entry::Put, Entry::Rpc], [Entry::Put, Entry::Put, Entry::GetState], [Entry::Rpc, Entry::Rpc, Entry::Direct]] {
         scenarios.push((t.to_vec(), Some(k3)));
     }
+    // the same pairs once more at single-task-poll granularity (background tasks stepped one
+    // poll at a time), deviation-bounded
+    let fine_bound = tier.pick(3, 4);
+    let fine_scenarios: Vec<(Vec<Entry>, Option<usize>)> = scenarios.iter().filter(|(p, _)| p.len() == 2).map(|(p, _)| (p.clone(), Some(fine_bound))).collect();
+    for (paths, bound) in &fine_scenarios {
+        let cfg = ExploreCfg { max_deviations: *bound, max_executions: 2_000_000, determinism_check_every: 53 };
+        let (st, sum) = e2::explore(&cfg, |p| run_one(paths, p, true), |st, run, obs| judge_fine(paths, run, obs, st));
+        total.merge(st);
+        summary.executions += sum.executions;
+        summary.max_steps = summary.max_steps.max(sum.max_steps);
+        summary.deadlocks += sum.deadlocks;
+        summary.nondeterministic += sum.nondeterministic;
+        summary.prefix_misfits += sum.prefix_misfits;
+        summary.capped |= sum.capped;
+    }
     for (paths, bound) in &scenarios {
         let cfg = ExploreCfg { max_deviations: *bound, max_executions: 2_000_000, determinism_check_every: 53 };
-        let (st, sum) = e2::explore(&cfg, |p| run_one(paths, p), |st, run, obs| judge(paths, run, obs, st));
+        let (st, sum) = e2::explore(&cfg, |p| run_one(paths, p, false), |st, run, obs| judge(paths, run, obs, st));
         if total.samples.len() < 3 {
-            let (run, _) = run_one(paths, &[0, 1]);
+            let (run, _) = run_one(paths, &[0, 1], false);
             total.sample(|| case_json(paths, &run));
         }
         total.merge(st);
@@ -215,6 +244,7 @@ pub fn run(tier: Tier) -> i32 {
     report.cover("executions", summary.executions);
     report.cover("max_steps_per_execution", summary.max_steps);
     report.cover("k3_deviation_bound", k3);
+    report.cover("fine_grained_k2_deviation_bound", fine_bound);
     report.cover("exhaustive", !summary.capped);
     report.guard(summary.nondeterministic == 0, "an execution did not reproduce when run twice with the same schedule");
     report.guard(summary.prefix_misfits == 0, "a schedule prefix did not fit its re-execution");
@@ -244,8 +274,9 @@ pub fn replay(case: &J) -> i32 {
         .iter()
         .filter_map(|v| v.as_u64().map(|x| x as usize))
         .collect();
-    let (run, obs) = run_one(&paths, &schedule);
-    let (run2, obs2) = run_one(&paths, &schedule);
+    let fine = case.get("fine_grained").and_then(|v| v.as_bool()).unwrap_or(false);
+    let (run, obs) = run_one(&paths, &schedule, fine);
+    let (run2, obs2) = run_one(&paths, &schedule, fine);
     if run != run2 || obs != obs2 {
         eprintln!("replay is not deterministic");
         return 2;
